@@ -9,7 +9,7 @@ base=/var/tmp/vs-seed
 cd "$base/repo" && git checkout -q -- . && git clean -qfd -e target && git checkout -q --detach "$(git -C /repo rev-parse HEAD)" || exit 3
 mkdir -p "$(dirname "$dest")"; cp "$dir/demo.rs" "$dest"
 cargo test --offline -p "$crate" --test "$tname" >"$dir/lead_demo_clean.log" 2>&1; a=$?
-git apply "$dir/patch.diff" || { echo "PATCH DOES NOT APPLY"; exit 3; }
+git apply "$dir/patch.diff" 2>/dev/null || git apply --3way "$dir/patch.diff" 2>/dev/null && git reset -q || { echo "PATCH DOES NOT APPLY"; exit 3; }
 cargo test --offline -p "$crate" --test "$tname" >"$dir/lead_demo_changed.log" 2>&1; b=$?
 rm -f "$dest"
 if [ $# -eq 0 ]; then set -- -p "$crate"; fi
